@@ -894,7 +894,9 @@ func (x *svcEnv) probe() string {
 	t := reflect.TypeOf(x.a)
 	for i := 0; i < t.NumMethod(); i++ {
 		m := t.Method(i)
-		if knownFacade[m.Name] {
+		if knownFacade[m.Name] || strings.HasPrefix(m.Name, "Verif") {
+			// (Verif*: accessors that exist only in the harness build, files guarded by the tag `verif`; the product build's
+			// method set is what kvfacts tabulates)
 			continue
 		}
 		entry := m.Name + ":nocall"
